@@ -41,8 +41,13 @@ KINDS = {
     "G": {"files": {"g.rs": "#[path = \"../shared/common.rs\"]\nmod common;\nfn  g( ){}\n", "../shared/common.rs": "pub fn  c( ){}\n"}},
     "H": {"files": {"h.rs": "#[path = \"../shared/common.rs\"]\nmod common;\nfn  h( ){}\n", "../shared/common.rs": "pub fn  c( ){}\n"}},
     "N": {"files": {}},       # a path that does not exist
+    # a local configuration that sets the EDITION, and syntax that only parses under it
+    "E": {"files": {"e.rs": "async fn  e( ){\nlet f = async move { 1 };}\n", "rustfmt.toml": "edition = \"2018\"\n"}},
+    # reports with notes: a blank at the end of a line inside a string literal, reported because of the file's own configuration
+    "W": {"files": {"w.rs": "fn w() {\n    let s = \"abc   \n        def\";\n}\n", "rustfmt.toml": "error_on_unformatted = true\n"}},
+    "V": {"files": {"v.rs": "fn v() {\n    let t = \"xyz  \n        uvw\";\n}\n", "rustfmt.toml": "error_on_unformatted = true\n"}},
 }
-ROOT = {"G": "g.rs", "H": "h.rs", "C": "c.rs", "F": "f.rs", "U": "u.rs", "P": "p.rs", "L": "l.rs", "M": "m.rs", "T": "t.rs", "B": "b.rs", "N": "nothere.rs", "X": "x.rs", "I": "i.rs", "J": "j.rs"}
+ROOT = {"G": "g.rs", "H": "h.rs", "C": "c.rs", "F": "f.rs", "U": "u.rs", "P": "p.rs", "L": "l.rs", "M": "m.rs", "T": "t.rs", "B": "b.rs", "N": "nothere.rs", "X": "x.rs", "I": "i.rs", "J": "j.rs", "E": "e.rs", "W": "w.rs", "V": "v.rs"}
 ANSI = re.compile(r"\x1b\[[0-9;]*m|\x1b\(B")
 
 
@@ -120,7 +125,7 @@ def run(tier, seed, replay):
             e.update({"LANG": "tr_TR.UTF-8", "LC_ALL": "C", "TZ": "Pacific/Kiritimati", "COLUMNS": "20", "NO_COLOR": "1", "CARGO": "/nonexistent"})
         return e
 
-    sets = [["C", "U", "F"], ["G", "H"], ["I", "U", "J"], ["J", "I"], ["U"], ["F", "U"], ["U", "P", "L"], ["F", "U", "P", "L"], ["T", "L", "M"], ["L", "M", "N"], ["U", "X", "F"], ["U", "B", "F"]]
+    sets = [["C", "U", "F"], ["G", "H"], ["I", "U", "J"], ["J", "I"], ["U"], ["F", "U"], ["U", "P", "L"], ["F", "U", "P", "L"], ["T", "L", "M"], ["L", "M", "N"], ["U", "X", "F"], ["U", "B", "F"], ["U", "E", "F"], ["W", "V"], ["W", "U", "V"]]
     if tier != "quick":
         pool = ["F", "U", "P", "L", "M", "T", "N", "X"]
         for _ in range(10):
@@ -258,11 +263,13 @@ def run(tier, seed, replay):
                 sj, sr = singles[(j["set"], j["mode"], i)]
                 changed = any(sr["after"].get(rel) != t for rel, t in sr["before"].items()) if j["mode"] == "files" else None
                 differs = {"F": False, "P": False, "N": False, "X": False}.get(k, True)
-                fl.append([k == "N", k in ("P", "X"), False, False, False, j["mode"] == "check" and differs, False])
+                wv = k in ("W", "V")       # FormatReport::track_errors: TrailingWhitespace sets operational, formatting and unformatted
+                fl.append([k == "N" or wv, k in ("P", "X"), wv, False, False, j["mode"] == "check" and differs and not wv, wv])
             exit_exprs.append("(run_exit_multi %s %s, run_exit_max %s %s)" % (coqterm.render(fl), coqterm.render(j["mode"] == "check"), coqterm.render(fl), coqterm.render(j["mode"] == "check")))
             exit_expect.append((j, r["rc"]))
         # --- model: the whole invocation
-        if j["variant"] == "multi" and "C" not in kinds:      # (the session model has ONE newline_style for all inputs: sets with the explicit-style input C are judged by the oracles only)
+        if j["variant"] == "multi" and not set(kinds) & {"C", "W", "V"}:      # (W, V: formatting errors inside a file are not part of the invocation encoding; their exit status is compared above)
+            #  (the session model has ONE newline_style for all inputs: sets with the explicit-style input C are judged by the oracles only)
             names = {}
             ins = []
             fsingle = {}
@@ -336,7 +343,7 @@ def run(tier, seed, replay):
                  "files of nested directories with their own rustfmt.toml: the output of one invocation over %s is not the single-file outputs in order" % (list(order),))
     # ---- path vs standard input
     stdin_n = 0
-    for k in ("F", "U", "L", "M", "P", "X"):
+    for k in ("F", "U", "L", "M", "P", "X", "E", "W"):
         d = os.path.join(base, "stdin_" + k)
         make_tree(d, [k])
         sd = os.path.join(d, "d0")
